@@ -866,3 +866,148 @@ theorem lookup_registerOverride {m o : Map V} (ho : WF o) (q : List Nat) (hq : q
   rw [this, lookup_registerAll_overlay m (abs o) (fun e he => abs_chord_ne_nil (c := e.1) (w := e.2) he)
     (abs_prefixFree ho) q hq]
   exact overlay_abs ho _ q hq
+
+/-! ## the matcher on arbitrary key streams, from arbitrary states -/
+
+theorem lookupState_nil (m : Map V) (k : Nat) :
+    lookupState m [] k =
+      match lookup m [k] with
+      | .continue_ => ([k], none)
+      | .success v => ([], some v)
+      | .failure => ([k], none) := by
+  cases h : lookup m [k] <;> simp [lookupState, lookupStateLoop, h]
+
+theorem lookupState_restart {m : Map V} {st : List Nat} {k : Nat} (h : lookup m (st ++ [k]) = .failure) :
+    lookupState m st k = lookupState m [] k := by
+  rw [lookupState_failure h, lookupState_nil]
+  cases h1 : lookup m [k] <;> simp [lookupStateLoop, h1]
+
+theorem suffix_snoc {st p : List Nat} (h : st <:+ p) (k : Nat) : st ++ [k] <:+ p ++ [k] := by
+  obtain ⟨t, ht⟩ := h
+  exact ⟨t, by rw [← ht]; simp⟩
+
+theorem feed_firesSound {m : Map V} (h : WF m) (ks : List Nat) {st p : List Nat} (hs : st <:+ p) :
+    FiresSound (abs m) p ks (feed m st ks).2 := by
+  induction ks generalizing st p with
+  | nil => simp [feed, FiresSound]
+  | cons k ks ih =>
+    rw [feed_cons]
+    have hone : [k] <:+ p ++ [k] := List.suffix_append _ _
+    cases hl : lookup m (st ++ [k]) with
+    | continue_ =>
+      rw [lookupState_continue hl]
+      exact ih (suffix_snoc hs k)
+    | success v =>
+      rw [lookupState_success hl]
+      exact ⟨⟨st ++ [k], (mem_abs_iff h _ _).2 hl, suffix_snoc hs k⟩, ih (List.nil_suffix)⟩
+    | failure =>
+      rw [lookupState_restart hl, lookupState_nil]
+      cases h1 : lookup m [k] with
+      | continue_ => exact ih hone
+      | success v => exact ⟨⟨[k], (mem_abs_iff h _ _).2 h1, hone⟩, ih (List.nil_suffix)⟩
+      | failure => exact ih hone
+
+/-- one key from any state, in terms of the dictionary -/
+theorem matcher_step {m : Map V} (h : WF m) (st : List Nat) (k : Nat) :
+    (∀ v, (st ++ [k], v) ∈ abs m → lookupState m st k = ([], some v)) ∧
+    ((∃ c w, (c, w) ∈ abs m ∧ ProperPrefix (st ++ [k]) c) → lookupState m st k = (st ++ [k], none)) ∧
+    ((∀ v, (st ++ [k], v) ∉ abs m) → (¬ ∃ c w, (c, w) ∈ abs m ∧ ProperPrefix (st ++ [k]) c) →
+      lookupState m st k = lookupState m [] k ∧ (Unbound (abs m) k → lookupState m st k = ([k], none))) := by
+  have hne : st ++ [k] ≠ [] := by simp
+  refine ⟨fun v hv => lookupState_success ((mem_abs_iff h _ _).1 hv),
+    fun hp => lookupState_continue ((lookup_continue_iff h _ hne).2 hp), ?_⟩
+  intro hnb hnp
+  have hf : lookup m (st ++ [k]) = .failure := by
+    cases hl : lookup m (st ++ [k]) with
+    | success v => exact absurd ((mem_abs_iff h _ _).2 hl) (hnb v)
+    | continue_ => exact absurd ((lookup_continue_iff h _ hne).1 hl) hnp
+    | failure => rfl
+  refine ⟨lookupState_restart hf, fun hu => ?_⟩
+  rw [lookupState_restart hf]
+  exact lookupState_junk (Or.inl rfl) (getE_none_of_unbound h hu)
+
+/-- from ANY state: an unbound key that does not continue a pending chord leaves the matcher idle, so the chord
+    typed immediately after it fires exactly at its last key -/
+theorem matcher_after_unbound {m : Map V} (h : WF m) (st : List Nat) {u : Nat} (hu : Unbound (abs m) u)
+    (hnp : ¬ ∃ c w, (c, w) ∈ abs m ∧ ProperPrefix (st ++ [u]) c) {c : List Nat} {v : V} (hc : (c, v) ∈ abs m) :
+    (feed m st (u :: c)).1 = [] ∧
+    (feed m st (u :: c)).2.tail = List.replicate (c.length - 1) none ++ [some v] := by
+  have hl := (mem_abs_iff h c v).1 hc
+  have hgu := getE_none_of_unbound h hu
+  have hidle : IdleSt m (lookupState m st u).1 := by
+    cases hs : lookup m (st ++ [u]) with
+    | continue_ => exact absurd ((lookup_continue_iff h _ (by simp)).1 hs) hnp
+    | success w => rw [lookupState_success hs]; exact Or.inl rfl
+    | failure =>
+      rw [lookupState_restart hs, lookupState_junk (Or.inl rfl) hgu]
+      exact Or.inr ⟨u, rfl, hgu⟩
+  rw [feed_cons, feed_idle hidle hl]
+  simp
+
+/-! ## what `register` returns -/
+
+theorem mem_abs_cons {m : Map V} (h : WF m) (k : Nat) (t : List Nat) (w : V) :
+    (k :: t, w) ∈ abs m ↔
+      match getE m k with
+      | some (.sub m') => (t, w) ∈ abs m'
+      | some (.val v) => t = [] ∧ w = v
+      | none => False := by
+  rw [mem_abs_iff h]
+  cases hg : getE m k with
+  | none => simp [lookup, hg]
+  | some e =>
+    cases e with
+    | val v =>
+      simp only [lookup, hg]
+      by_cases ht : t = []
+      · subst ht; simp; exact eq_comm
+      · simp [ht]
+    | sub m' =>
+      simp only [lookup, hg]
+      exact (mem_abs_iff (wf_get_sub h hg).2 t w).symm
+
+theorem registerPrev_spec {m : Map V} (h : WF m) (c : List Nat) (hc : c ≠ []) :
+    (registerPrev m c = none ↔ lookup m c = .failure) ∧
+    (∀ w, registerPrev m c = some (.val w) ↔ lookup m c = .success w) ∧
+    (∀ s, registerPrev m c = some (.sub s) →
+      lookup m c = .continue_ ∧ s ≠ .nil ∧ WF s ∧ ∀ t w, (t, w) ∈ abs s ↔ (c ++ t, w) ∈ abs m) ∧
+    (lookup m c = .continue_ → ∃ s, registerPrev m c = some (.sub s)) := by
+  induction c generalizing m with
+  | nil => exact absurd rfl hc
+  | cons k ks ih =>
+    cases ks with
+    | nil =>
+      simp only [registerPrev, lookup]
+      cases hg : getE m k with
+      | none => simp
+      | some e =>
+        cases e with
+        | val v => simp
+        | sub m' =>
+          have hw := wf_get_sub h hg
+          refine ⟨by simp, by intro w; simp, ?_, fun _ => ⟨m', rfl⟩⟩
+          intro s hs
+          injection hs with hs; injection hs with hs; subst hs
+          refine ⟨by simp, hw.1, hw.2, ?_⟩
+          intro t w
+          simp only [List.cons_append, List.nil_append]
+          rw [mem_abs_cons h, hg]
+    | cons k2 ks' =>
+      simp only [registerPrev, lookup]
+      cases hg : getE m k with
+      | none => simp
+      | some e =>
+        cases e with
+        | val v => simp
+        | sub m' =>
+          have hw := wf_get_sub h hg
+          obtain ⟨i1, i2, i3, i4⟩ := ih (m := m') hw.2 (by simp)
+          refine ⟨i1, i2, ?_, i4⟩
+          intro s hs
+          simp only at hs
+          obtain ⟨j1, j2, j3, j4⟩ := i3 s hs
+          refine ⟨j1, j2, j3, ?_⟩
+          intro t w
+          rw [j4 t w]
+          simp only [List.cons_append]
+          rw [mem_abs_cons h k, hg]
